@@ -413,8 +413,13 @@ class ConnProxy:
 
 
 class Impl:
-    def __init__(self):
+    """mode None: tables opened by their bare name (default schema).  mode 'schema' / 'catalog': every table is opened as
+    archive.<t> / memory.archive.<t>, and (usually) a table of the same name exists in the default schema.  One mode per
+    process: sqlframe's catalog refuses to mix nesting levels of table names within a session."""
+
+    def __init__(self, mode=None):
         import duckdb
+        self.mode = mode
         from sqlframe.duckdb import DuckDBSession
         import sqlframe.duckdb.functions as F
         from sqlglot import expressions as exp
@@ -426,14 +431,21 @@ class Impl:
             raise RuntimeError("DuckDBSession singleton was created before the check could install its connection proxy")
         self.F, self.exp = F, exp
         self.n = 0
+        if mode:
+            self.raw.execute("CREATE SCHEMA archive")
 
-    def new_table(self, rows):
+    def new_table(self, rows, shadow=None):
+        """returns (name to open the table with, bare name, name of the same-named table in the default schema or None)"""
         self.n += 1
-        name = f"c15_{self.n}"
-        self.raw.execute(f"CREATE TABLE {name} ({DDL})")
-        if rows:
-            self.raw.executemany(f"INSERT INTO {name} VALUES (?, ?, ?, ?)", [list(r) for r in rows])
-        return name
+        bare = f"c15{'q' if self.mode else ''}_{self.n}"
+        full = bare if not self.mode else ("archive." + bare if self.mode == "schema" else "memory.archive." + bare)
+        for nm, rs in ((full, rows), ("main." + bare, shadow)):
+            if rs is None or (nm != full and not self.mode):
+                continue
+            self.raw.execute(f"CREATE TABLE {nm} ({DDL})")
+            if rs:
+                self.raw.executemany(f"INSERT INTO {nm} VALUES (?, ?, ?, ?)", [list(r) for r in rs])
+        return full, bare, ("main." + bare if self.mode and shadow is not None else None)
 
     def read(self, name):
         return [tuple(r) for r in self.raw.execute(f"SELECT a, b, s, f FROM {name} ORDER BY rowid").fetchall()]
@@ -549,12 +561,13 @@ def x_stmt(tree, exp) -> str:
         if v and k not in allowed:
             raise rel.NotExportable(f"statement arg {k}")
     tbl = tree.this
-    if not isinstance(tbl, exp.Table) or tbl.args.get("alias") or tbl.args.get("db") or tbl.args.get("catalog"):
+    if not isinstance(tbl, exp.Table) or tbl.args.get("alias"):
         raise rel.NotExportable("statement target is not a plain table")
+    tq = listlit([strlit(p) for p in (tbl.catalog, tbl.db, tbl.name) if p])
     w = tree.args.get("where")
     wq = "None" if w is None else f"(Some {x_q(w.this, exp)})"
     if isinstance(tree, exp.Delete):
-        return f"(SDelete {strlit(tbl.name)} {wq})"
+        return f"(SDelete {tq} {wq})"
     ents = []
     for e in tree.expressions:
         if not isinstance(e, exp.EQ):
@@ -569,7 +582,7 @@ def x_stmt(tree, exp) -> str:
         else:
             raise rel.NotExportable(f"SET key {type(key).__name__}")
         ents.append(f"({strlit(kn)}, {x_q(e.expression, exp)})")
-    return f"(SUpdate {strlit(tbl.name)} {listlit(ents)} {wq})"
+    return f"(SUpdate {tq} {listlit(ents)} {wq})"
 
 
 # ---- one history on one table ----------------------------------------------------------------------------
@@ -578,17 +591,19 @@ def rows_coq(rows) -> str:
     return listlit([rel.row_coq(r) for r in rows])
 
 
-def run_history(impl: Impl, rows, calls, order):
+def run_history(impl: Impl, rows, calls, order, shadow=None):
     """calls: list of call dicts; order: list of indices into calls = the order of execute() calls (an index may
     repeat or be missing).  Builds happen first when order is not the identity (interleaved otherwise).
     Returns a list of per-execution observation dicts (one per build; executed 0..n times)."""
-    name = impl.new_table(rows)
+    name, bare, shadow_name = impl.new_table(rows, shadow)
     out = []
     try:
         t = impl.session.table(name)
         cte = t._convert_leaf_to_cte().latest_cte_name
-        NAMES["phys"], NAMES["cte"] = name, cte
-        st = f"(mkT {strlit(name)} {strlit(cte)} {strlit(t.branch_id)})"
+        NAMES["phys"], NAMES["cte"] = bare, cte
+        path = name.split(".")[:-1]
+        st = f"(mkT {strlit(bare)} {strlit(cte)} {strlit(t.branch_id)} {listlit([strlit(p) for p in path])})"
+        ref = f"(mkRef {strlit('memory')} {strlit('main')} {strlit('archive' if impl.mode else 'main')} {strlit(bare)})"
         sequential = order == list(range(len(calls)))
         built = []
 
@@ -622,13 +637,14 @@ def run_history(impl: Impl, rows, calls, order):
         def do_exec(i):
             b = built[i]
             pre = impl.read(name)
+            spre = impl.read(shadow_name) if shadow_name else None
             ref = None
             try:
                 ref = [tuple(r) for r in impl.raw.execute(ref_select(b["call"]).format(t=name)).fetchall()]
             except Exception as ex:  # the reference oracle itself failed (my renderer / typing): reported as broken
                 ref = f"{type(ex).__name__}: {str(ex)[:120]}"
             if b["le"] is None:
-                b["execs"].append({"pre": pre, "obs": None, "ref": ref})
+                b["execs"].append({"pre": pre, "obs": None, "ref": ref, "shadow_pre": spre, "shadow_post": spre})
                 return
             n0 = len(impl.proxy.log)
             xerr, xexc, count = None, None, None
@@ -641,7 +657,7 @@ def run_history(impl: Impl, rows, calls, order):
             sent = len(impl.proxy.log) - n0
             post = impl.read(name)
             b["execs"].append({"pre": pre, "obs": {"err": xerr, "exc": xexc, "rows": post, "count": count, "sent": sent},
-                               "ref": ref})
+                               "ref": ref, "shadow_pre": spre, "shadow_post": impl.read(shadow_name) if shadow_name else None})
 
         if sequential:
             for i in range(len(calls)):
@@ -653,10 +669,14 @@ def run_history(impl: Impl, rows, calls, order):
             for i in order:
                 do_exec(i)
         for b in built:
+            b["le"] = b["le"] is not None          # observations must be picklable (qualified phases run in a child process)
             for x in (b["execs"] or [None]):
-                out.append({"st": st, "name": name, "b": b, "x": x})
+                out.append({"st": st, "name": name, "ref": ref, "bare": bare, "shadow_name": shadow_name, "mode": impl.mode,
+                            "b": b, "x": x})
     finally:
         impl.drop(name)
+        if shadow_name:
+            impl.drop(shadow_name)
     return out
 
 
@@ -672,7 +692,10 @@ def case_term(o) -> str:
         exq = (f"(Some (mkExec {optlit(ex['err'])} {rows_coq(ex['rows'])} "
                f"{optlit(None if ex['count'] is None else natlit(ex['count']))} {natlit(ex['sent'])}))")
     refq = "(None : option (list row))" if not isinstance(ref, list) else f"(Some {rows_coq(ref)} : option (list row))"
-    return (f"(mkCase {o['st']} {strlit(o['name'])} {listlit([strlit(c) for c in COLS])} {b['cq']} "
+    shq = "None"
+    if x is not None and o.get("shadow_name") and x.get("shadow_pre") is not None:
+        shq = f"(Some (({strlit('main')}, {strlit(o['bare'])}), {rows_coq(x['shadow_pre'])}, {rows_coq(x['shadow_post'])}))"
+    return (f"(mkCase {o['st']} {o['ref']} {shq} {listlit([strlit(c) for c in COLS])} {b['cq']} "
             f"{rows_coq(b['rows0'])} {rows_coq(b['rows1'])} {natlit(b['sent_build'])} {optlit(b['build_err'])} "
             f"{b['exported']} {rows_coq(pre)} {exq}, {refq})")
 
@@ -693,6 +716,8 @@ def signature(call, b, x, flags) -> str:
     lazy_ok = flags[1] == "1"
     if not lazy_ok:
         return "C15/table-or-connection-touched-before-execute"
+    if x and x.get("shadow_pre") is not None and x.get("shadow_pre") != x.get("shadow_post"):
+        return "C15/another-table-of-the-same-name-was-modified"
     if "unq" in feats and berr == "EValue":
         return SIG_UNQ
     if "alias" in feats and xerr == "EParser":
@@ -724,6 +749,7 @@ def corpus():
     T = lambda c: ("col", c, "T")
     Fc = lambda c: ("col", c, "F")
     return [
+        [{"kind": "delete", "where": {"kind": "sql", "e": ("not", ("bin", "And", ("bin", "Gt", Fc("a"), ("lit", 2)), ("bin", "Lt", Fc("a"), ("lit", 1))))}}],
         [{"kind": "delete", "where": {"kind": "sql", "e": ("if", Fc("f"), ("isnull", Fc("a")), ("bin", "Gt", Fc("b"), ("neg", ("lit", 3))))}}],
         [{"kind": "update", "set": [["str", "a", ("if", ("isnull", Fc("a")), ("lit", 0), Fc("a"))]],
           "where": {"kind": "sql", "e": ("bin", "And", ("bin", "NullSafeEq", ("neg", Fc("a")), ("neg", ("lit", 3))), Fc("f"))}}],
@@ -773,6 +799,13 @@ def make_histories(ctx):
             {"kind": "cols", "items": [("bin", "NullSafeEq", T("a", q), ("lit", None))], "as_list": False},
             {"kind": "cols", "items": [("if", T("f", q), ("bin", "Eq", T("a", q), ("lit", 1)), ("isnull", T("b", q)))], "as_list": False},
             {"kind": "cols", "items": [("coalesce", T("f", q), ("lit", False))], "as_list": True},
+            # predicates that are constant in two-valued logic only (NULL on rows with a NULL operand): a negated empty range,
+            # a negated contradiction, a case split -- what a 2VL "simplifier" would fold to TRUE / to p
+            {"kind": "cols", "items": [("not", ("bin", "And", ("bin", "Gt", T("a", q), ("lit", 2)), ("bin", "Lt", T("a", q), ("lit", 1))))], "as_list": False},
+            {"kind": "cols", "items": [("not", ("bin", "And", ("bin", "Eq", T("s", q), ("lit", "x")), ("not", ("bin", "Eq", T("s", q), ("lit", "x")))))], "as_list": False},
+            {"kind": "cols", "items": [("bin", "Or", ("bin", "And", ("bin", "Ge", T("b", q), ("lit", 1)), ("bin", "Eq", T("a", q), ("lit", 1))),
+                                        ("bin", "And", ("bin", "Ge", T("b", q), ("lit", 1)), ("not", ("bin", "Eq", T("a", q), ("lit", 1)))))], "as_list": False},
+            {"kind": "cols", "items": [("bin", "Or", T("f", q), ("not", T("f", q)))], "as_list": False},
             {"kind": "cols", "items": [("bin", "Ge", T("a", q), ("lit", 1)), ("bin", "Neq", T("s", "T"), ("lit", "y"))], "as_list": True},
         ]
         sets = [
@@ -789,7 +822,7 @@ def make_histories(ctx):
                     hs.append((tn, [call], [0]))
                     n_exh += 1
     # random histories of up to 4 statements
-    n_rand = 220 if ctx.tier == "quick" else 4000
+    n_rand = 200 if ctx.tier == "quick" else 4000
     for _ in range(n_rand):
         n = r.choice([1, 1, 2, 2, 3, 4])
         calls = [gen_call(r) for _ in range(n)]
@@ -871,11 +904,73 @@ def shrink(impl, rows, call, budget=60):
     return rows, call
 
 
+# ---- schema- / catalog-qualified tables (own process: one naming depth per sqlframe session) ------------------------
+
+def make_q_histories(seed, tier, mode):
+    """tables opened as archive.<t> (mode 'schema') or memory.archive.<t> (mode 'catalog'); a table of the same name with
+    other contents exists in the default schema (shadow) in most histories -- it must never change."""
+    r = random.Random(seed * 7 + (1 if mode == "schema" else 2))
+    T = lambda c: ("col", c, "T")
+    Fc = lambda c: ("col", c, "F")
+    shadow = [(1, 2, "x", True), (None, 3, "x", None), (7, 7, "m", False), (1, 2, "x", True)]
+    fixed = [
+        [{"kind": "update", "set": [["str", "a", ("bin", "Add", T("a"), ("lit", 1))]],
+          "where": {"kind": "cols", "items": [("bin", "Eq", T("b"), ("lit", 2))], "as_list": False}}],
+        [{"kind": "delete", "where": {"kind": "cols", "items": [("isnull", Fc("a"))], "as_list": False}}],
+        [{"kind": "delete", "where": {"kind": "none"}}],
+        [{"kind": "update", "set": [["str", "a", T("b")], ["T", "b", T("a")]], "where": {"kind": "none"}}],
+        [{"kind": "update", "set": [["F", "s", ("lit", "zz")]], "where": {"kind": "sql", "e": ("bin", "Gt", Fc("b"), ("lit", 1))}}],
+        [{"kind": "delete", "where": {"kind": "cols", "items": [("bin", "Eq", ("col", "a", "P"), ("lit", 1))], "as_list": False}}],
+    ]
+    hs = []
+    for calls in fixed:
+        hs.append(("t1", calls, [0], shadow))
+        hs.append(("nulls", calls, [0], None if mode == "schema" else shadow))
+    n = (25 if mode == "schema" else 10) if tier == "quick" else (300 if mode == "schema" else 120)
+    for _ in range(n):
+        k = r.choice([1, 1, 2, 3])
+        calls = [gen_call(r) for _ in range(k)]
+        order = list(range(k))
+        if k > 1 and r.random() < 0.4:
+            r.shuffle(order)
+        hs.append((r.choice(["t1", "t2", "nulls", "dups", "one"]), calls, order,
+                   r.choice([shadow, shadow, TABLES["t2"], [], None])))
+    return hs
+
+
+def observe(impl, hs):
+    """run histories; returns ([(coq case term, meta)], [harness errors], number of histories)"""
+    pairs, errors, seen, n_hist = [], [], set(), 0
+    for h in hs:
+        tn, calls, order = h[0], h[1], h[2]
+        shadow = h[3] if len(h) > 3 else None
+        key = (tn, json.dumps(calls, sort_keys=True, default=str), tuple(order), repr(shadow))
+        if key in seen:
+            continue
+        seen.add(key)
+        n_hist += 1
+        try:
+            obs = run_history(impl, TABLES[tn], calls, order, shadow)
+        except Exception as ex:
+            errors.append(f"{type(ex).__name__}: {ex} on {[call_show(c) for c in calls]} (mode {impl.mode})")
+            continue
+        for o in obs:
+            pairs.append((case_term(o), {"o": o, "table": tn, "calls": calls, "order": order, "shadow": shadow,
+                                         "mode": impl.mode, "first": o is obs[0]}))
+    return pairs, errors, n_hist
+
+
+def _q_phase(args):
+    seed, tier, mode = args
+    logging.disable(logging.WARNING)
+    return observe(Impl(mode), make_q_histories(seed, tier, mode))
+
+
 # ---- the check ---------------------------------------------------------------------------------------------------
 
 PINNED = """(* facts of the pinned source, used only so that the search can still run when the translator failed *)
 From SF Require Import Base.Val Base.Expr C15.Dml.
-Definition gen_cfg : cfg := mkCfg true And true true true true false true true true true true true true 0 1.
+Definition gen_cfg : cfg := mkCfg true And true true true true false true TScan TScan true true true true 0 1.
 """
 
 
@@ -901,10 +996,15 @@ def run(ctx: core.Ctx):
         ctx.gen("C15Facts", PINNED)
         ctx.coqc(ctx.build + "/gen/C15Facts.v")
     # ---- T2/T3
+    # the two qualified-name phases run in forked children (started before this process creates its own session)
+    import multiprocessing
+    from concurrent.futures import ProcessPoolExecutor
+    pool = ProcessPoolExecutor(max_workers=2, mp_context=multiprocessing.get_context("fork"))
+    q_futs = [pool.submit(_q_phase, (ctx.seed, ctx.tier, mode)) for mode in ("schema", "catalog")]
     impl = Impl()
     hs, n_exh = make_histories(ctx)
     items, metas = [], []
-    hist = {"len": {}, "kind": {}, "where": {}, "table": {}, "order": {}, "features": {}, "set_size": {}}
+    hist = {"len": {}, "kind": {}, "where": {}, "table": {}, "order": {}, "features": {}, "set_size": {}, "naming": {}}
 
     def bump(h, k):
         hist[h][k] = hist[h].get(k, 0) + 1
@@ -913,31 +1013,37 @@ def run(ctx: core.Ctx):
     n_hist = 0
     # only entries with status "known" are reported as KNOWN-FINDING; "fixed" ones suppress nothing
     listed_known = {k["signature"] for k in ctx.known if k.get("status", "known") == "known"}
-    for tn, calls, order in hs:
-        key = (tn, json.dumps(calls, sort_keys=True, default=str), tuple(order))
-        if key in seen:
-            continue
-        seen.add(key)
-        n_hist += 1
+    pairs, errors, n_hist = observe(impl, hs)
+    n_q = 0
+    for fut in q_futs:
         try:
-            obs = run_history(impl, TABLES[tn], calls, order)
+            qp, qe, qn = fut.result(timeout=1500)
+            pairs, errors, n_hist, n_q = pairs + qp, errors + qe, n_hist + qn, n_q + len(qp)
         except Exception as ex:
-            ctx.broken("harness:run_history", f"{type(ex).__name__}: {ex} on {[call_show(c) for c in calls]}")
-            continue
-        bump("len", len(calls))
-        bump("table", tn)
-        bump("order", "sequential" if order == list(range(len(calls))) else
-             "permuted" if sorted(order) == list(range(len(calls))) else "repeat/skip")
-        for o in obs:
-            items.append(case_term(o))
-            metas.append({"o": o, "table": tn, "calls": calls, "order": order})
+            errors.append(f"qualified-table phase crashed: {type(ex).__name__}: {ex}")
+    pool.shutdown()
+    for e in errors[:5]:
+        ctx.broken("harness:run_history", e)
+    for it_, m_ in pairs:
+        items.append(it_)
+        metas.append(m_)
+        o, tn, calls, order = m_["o"], m_["table"], m_["calls"], m_["order"]
+        if m_["first"]:
+            bump("len", len(calls))
+            bump("table", tn)
+            bump("order", "sequential" if order == list(range(len(calls))) else
+                 "permuted" if sorted(order) == list(range(len(calls))) else "repeat/skip")
+            bump("naming", {None: "bare name", "schema": "archive.<t>", "catalog": "memory.archive.<t>"}[m_["mode"]]
+                 + ("" if not m_["mode"] else " + same name in main" if m_["shadow"] is not None else " only"))
+        if True:
             c = o["b"]["call"]
             bump("kind", c["kind"])
             bump("where", c["where"]["kind"] + ("/list" if c["where"].get("as_list") else ""))
             bump("features", "+".join(sorted(call_features(c))) or "in-domain-shape")
             if c["kind"] == "update":
                 bump("set_size", len(c["set"]))
-    ctx.log(f"{len(items)} observed (build, execute) pairs from {n_hist} histories ({n_exh} bounded-exhaustive single calls)")
+    ctx.log(f"{len(items)} observed (build, execute) pairs from {n_hist} histories ({n_exh} bounded-exhaustive single calls; "
+            f"{n_q} pairs on schema-/catalog-qualified tables)")
     res = ctx.cases("c15", HEADER2, items, per_file=150, result_ty="str", fn="check2")
     n_dom = n_wf = n_t2 = n_t2x = n_nontriv = n_dev = 0
     model_fail, t2_fail, ref_fail, thm_fail = [], [], [], []
@@ -955,6 +1061,9 @@ def run(ctx: core.Ctx):
         n_t2 += t2 == "1"
         n_t2x += t2 == "x"
         desc = {"call": call_show(call), "call_json": jsonable_call(call), "table": m["table"],
+                "table_opened_as": o["name"], "naming_mode": o.get("mode"),
+                "same_named_table_in_default_schema": o.get("shadow_name"),
+                "shadow_rows_before_execute": (x or {}).get("shadow_pre"), "shadow_rows_after_execute": (x or {}).get("shadow_post"),
                 "rows_before_build": b["rows0"], "rows_before_execute": (x or {}).get("pre"),
                 "history": [call_show(c) for c in m["calls"]], "execute_order": m["order"],
                 "sql_built": b["sql"], "build_exception": b["build_exc"],
@@ -1000,6 +1109,9 @@ def run(ctx: core.Ctx):
             ctx.deviation(sig, what, desc)
             continue
         reported.add(sig)
+        if o.get("mode"):      # qualified-name observations come from a child process; the tables are small: no shrinking
+            ctx.deviation(sig, what, desc)
+            continue
         try:
             call = o["b"]["call"]
             pre = (o["x"] or {}).get("pre") or o["b"]["rows0"]
@@ -1051,6 +1163,9 @@ def run(ctx: core.Ctx):
         "expression from the harness (which rendered the string), and T2 compares it with the exported tree up to "
         "stmt_equiv (qualifier erasure + folding of negated integer literals, sound by stmt_equiv_sound); for the source "
         "before fix 4248493 the model covers strings to_column() cannot read as a column production",
+        "Dml.resolve / exec_db: a reference t means (default schema, t), s.t means (s, t), c.s.t means (s, t) for the "
+        "connection's catalog c; validated by T3 on tables opened as archive.<t> and memory.archive.<t> with a same-named "
+        "table in main (run in forked child processes: sqlframe's catalog refuses mixed naming depths in one session)",
         "well-typed statements only (int/str/bool columns get values of their type); no overflow",
         "the property's meaning (Dml.spec_rows) is additionally checked against an independent SELECT on DuckDB on every observation",
     ]
@@ -1064,15 +1179,21 @@ def replay(ctx: core.Ctx, rp: dict) -> int:
     r = r.get("shrunk") and {**r, **{"call_json": r["shrunk"]["call_json"], "rows_before_execute": r["shrunk"]["rows"]}} or r
     call = call_from_json(r["call_json"])
     rows = [tuple(x) for x in (r.get("rows_before_execute") or r.get("rows_before_build") or r.get("rows") or [])]
-    impl = Impl()
-    o = run_history(impl, rows, [call], [0])[0]
+    impl = Impl(r.get("naming_mode"))
+    shadow = r.get("shadow_rows_before_execute")
+    shadow = None if shadow is None else [tuple(x) for x in shadow]
+    o = run_history(impl, rows, [call], [0], shadow)[0]
     b, x = o["b"], o["x"]
     print("call:            ", call_show(call))
+    print("table opened as: ", o["name"], "" if not o.get("shadow_name") else f"(a table {o['shadow_name']} exists too: {shadow})")
     print("table before:    ", rows)
     print("statement built: ", b["sql"], "" if not b["build_exc"] else f"   BUILD RAISED {b['build_exc']}")
     print("table after build (must equal before):", b["rows1"], "| statements sent while building:", b["sent_build"])
     print("execute():       ", x["obs"])
     print("property demands:", x["ref"], "(rows after; no exception)")
-    ok = x["obs"] is not None and not x["obs"]["err"] and x["obs"]["rows"] == x["ref"] and b["rows0"] == b["rows1"]
+    if o.get("shadow_name"):
+        print("other table after:", x.get("shadow_post"), "(must equal", x.get("shadow_pre"), ")")
+    ok = x["obs"] is not None and not x["obs"]["err"] and x["obs"]["rows"] == x["ref"] and b["rows0"] == b["rows1"] \
+        and x.get("shadow_pre") == x.get("shadow_post")
     print("verdict:         ", "agrees with the property" if ok else "VIOLATES the property")
     return 0 if ok else 1
